@@ -1,7 +1,7 @@
 (* Proofs about Model/C17Publish.v (media.GetOrCreate: the pulled stream is
    published under the requested path). *)
 From Coq Require Import ZArith List Bool Lia.
-From V Require Import Bytes StrGo Route BytesLemmas RouteProofs C17Publish.
+From V Require Import Bytes StrGo Route BytesLemmas RouteProofs CanonProofs C17Publish.
 Import ListNotations.
 Open Scope Z_scope.
 
@@ -56,6 +56,10 @@ Qed.
 Lemma req_stable_eq p : req_stable p = true -> canonical_path (canonical_path p) = canonical_path p.
 Proof. unfold req_stable. apply bytes_eqb_eq. Qed.
 
+(* since the repair of utils.CanonicalPath (iterated to its fixed point) every request is stable *)
+Theorem req_stable_all p : req_stable p = true.
+Proof. unfold req_stable. apply bytes_eqb_eq. apply canonical_path_idem. Qed.
+
 Lemma spec_match_canon t p : req_stable p = true -> spec_match t (canonical_path p) = spec_match t p.
 Proof. intros S. unfold spec_match. rewrite (req_stable_eq p S). reflexivity. Qed.
 
@@ -69,10 +73,10 @@ Proof.
 Qed.
 
 Theorem goc_is_spec g t fs p :
-  uniq_keys t = true -> urls_nonempty t = true -> req_stable p = true ->
+  uniq_keys t = true -> urls_nonempty t = true ->
   get_or_create g t fs p = spec_goc g t fs p.
 Proof.
-  intros U NE S. unfold get_or_create, spec_goc, media_get.
+  intros U NE. pose proof (req_stable_all p) as S. unfold get_or_create, spec_goc, media_get.
   destruct (reg_get g (canonical_path p)); [reflexivity|].
   rewrite (match_go_is_spec t (canonical_path p) U NE), (spec_match_canon t p S).
   destruct (spec_match t p) as [r| |] eqn:M; try reflexivity.
@@ -118,7 +122,7 @@ Definition created_of (o : goc) : option (bytes * bytes * nat * option bool) :=
   end.
 
 Theorem created_meaning g t fs p lp url i keep :
-  uniq_keys t = true -> urls_nonempty t = true -> req_stable p = true ->
+  uniq_keys t = true -> urls_nonempty t = true ->
   created_of (get_or_create g t fs p) = Some (lp, url, i, keep) ->
   reg_get g (canonical_path p) = None /\
   lp = canonical_path p /\ ends_with SLASH lp = false /\
@@ -133,7 +137,7 @@ Theorem created_meaning g t fs p lp url i keep :
                 url = spec_url r lp /\
                 keep = if f_ok f lp url then Some (r_keep r) else None)).
 Proof.
-  intros U NE S H. rewrite (goc_is_spec g t fs p U NE S) in H. unfold spec_goc in H.
+  intros U NE H. rewrite (goc_is_spec g t fs p U NE) in H. unfold spec_goc in H.
   destruct (reg_get g (canonical_path p)) eqn:G; [discriminate|].
   pose proof (spec_match_meaning t p U) as M. cbv zeta in M.
   destruct (spec_match t p) as [r| |] eqn:SM; try discriminate.
@@ -192,20 +196,20 @@ Proof. intros H k. rewrite table_untouched. apply table_refines_map. exact H. Qe
 (* (e) publish path = lookup path: once a request has created (and thereby registered) a stream,
    a request for the same canonical path in any spelling returns that stream and creates nothing *)
 Theorem created_then_found url_ok fs st p q lp url i keep st1 sid seen :
-  pinv st = true -> req_stable p = true ->
+  pinv st = true ->
   pstep url_ok fs st (PReq p) = (st1, POReq (GCreated lp url i keep) sid seen) ->
   canonical_path q = canonical_path p ->
   sid = Some (ps_next st) /\
   reg_get (ps_reg st1) (canonical_path p) = Some (ps_next st) /\
   pstep url_ok fs st1 (PReq q) = (st1, POReq (GExisting (ps_next st)) (Some (ps_next st)) []).
 Proof.
-  intros I S H E. unfold pinv in I. apply andb_true_iff in I as [U NE].
+  intros I H E. pose proof (req_stable_all p) as S. unfold pinv in I. apply andb_true_iff in I as [U NE].
   unfold pstep, pstep_with in H.
   remember (get_or_create (ps_reg st) (ps_tbl st) fs p) as o eqn:Ho.
   injection H as H1 H2 H3 H4. subst o. rewrite H2 in H1, H3. cbn [goc_sid after_req] in H1, H3.
   assert (created_of (get_or_create (ps_reg st) (ps_tbl st) fs p) = Some (lp, url, i, Some keep)) as C
     by (rewrite H2; reflexivity).
-  apply (created_meaning _ _ _ _ _ _ _ _ U NE S) in C as (_ & Elp & _).
+  apply (created_meaning _ _ _ _ _ _ _ _ U NE) in C as (_ & Elp & _).
   assert (reg_get (ps_reg st1) (canonical_path p) = Some (ps_next st)) as G.
   { rewrite <- H1. cbn [ps_reg]. unfold publish. rewrite Elp, (req_stable_eq p S). apply reg_get_put_same. }
   split; [symmetry; exact H3|]. split; [exact G|].
@@ -242,7 +246,7 @@ Lemma pstep_eq_spec url_ok fs st o :
 Proof.
   intros W I. unfold pinv in I. apply andb_true_iff in I as [U NE].
   destruct o; try reflexivity. unfold pstep, pstep_spec, pstep_with.
-  rewrite (goc_is_spec _ _ fs p U NE W). reflexivity.
+  rewrite (goc_is_spec _ _ fs p U NE). reflexivity.
 Qed.
 
 Lemma goc_eqb_refl o : goc_eqb o o = true.
